@@ -246,8 +246,8 @@ def r1(ctx, r):
             for (e, need, have, what) in w.violations:
                 r.fail(f, e, "outside window: %s" % what.split("(")[0] + ("(" + what.split("(", 1)[1] if "(" in what else ""), "%s performs `%s`, which needs %s byte(s) from the cursor `%s`, but only %s established since the cursor last moved: "
                        "a truncated or crafted message makes the decoder read outside the buffer" % (last(f.name) + (" (lambda)" if g is not f else ""), what, show_form(need) if not is_top(need) else "a bound the analysis cannot establish", cur, show_form(have)))
-    if total < 40:
-        raise AnalysisBroken("only %d windowed reads recognised in the DNS decoders (floor 40)" % total)
+    if total < 36:
+        raise AnalysisBroken("only %d windowed reads recognised in the DNS decoders (floor 36)" % total)
     # constant-index / fixed-offset reads of RDATA behind a size test
     nconst = 0
     for nm in ("parseARecord", "parseAAAARecord", "parseSrvRecord", "parseMxRecord", "validateRdataSecurity", "parseNaptrRecord"):
